@@ -192,6 +192,19 @@ func (r *Runner) post(d Dumper) (map[string]any, map[string]any, map[string]any,
 	return out, rank, map[string]any{"lp": TimeTick(v.LastPrune), "ls": TimeTick(v.LastSweep)}, nil
 }
 
+// isGeneratedAttemptID: "att_" + 16 hex digits, the shape of an id the store makes up for a blank one.
+func isGeneratedAttemptID(id string) bool {
+	if len(id) != 20 || !strings.HasPrefix(id, "att_") {
+		return false
+	}
+	for _, c := range id[4:] {
+		if !(c >= '0' && c <= '9' || c >= 'a' && c <= 'f') {
+			return false
+		}
+	}
+	return true
+}
+
 func envArg(e EnvSpec) map[string]any {
 	return map[string]any{"id": e.ID, "rt": e.Rt, "tg": e.Tg, "recv": e.Recv, "next": e.Next, "att": e.Att,
 		"pl": DigestBytes(PayloadBytes(e.Pl)), "hd": DigestMap(MapFor(e.Hd)), "tr": DigestMap(MapFor(e.Tr))}
@@ -274,7 +287,7 @@ func (r *Runner) Run(name string, cfg Cfg, ops []Op) error {
 	if err != nil {
 		return err
 	}
-	defer closeFn()
+	defer func() { closeFn() }()
 	if cfg.Dev == nil {
 		cfg.Dev = []string{}
 	}
@@ -283,6 +296,27 @@ func (r *Runner) Run(name string, cfg Cfg, ops []Op) error {
 	}
 	book := &leaseBook{epochs: map[string][]string{}}
 	for _, op := range ops {
+		if op.Op == "Reopen" {
+			// close the store and open it again on the same database: a restart of the process that owns the queue.
+			// The memory store has nothing to reopen (the step is skipped there).
+			if cfg.Backend != "sqlite" {
+				continue
+			}
+			closeFn()
+			store, dump, closeFn, err = OpenStore(cfg, clk, dbPath)
+			if err != nil {
+				closeFn = func() {}
+				return fmt.Errorf("%s: reopen: %w", name, err)
+			}
+			post, rank, vol, err := r.post(dump)
+			if err != nil {
+				return err
+			}
+			if err := r.emit(Event{"ev": "Reopen", "a": map[string]any{}, "r": map[string]any{"err": ""}, "now": clk.Tick(), "post": post, "rank": rank, "vol": vol}); err != nil {
+				return err
+			}
+			continue
+		}
 		if op.Op == "FilterRace" {
 			if err := r.filterRace(store, dump, clk, book, op); err != nil {
 				return fmt.Errorf("%s: FilterRace: %w", name, err)
@@ -329,6 +363,43 @@ func execOp(store queue.Store, clk *Clock, book *leaseBook, op Op) (Event, error
 		}
 		n, err := be.EnqueueBatch(envs)
 		return Event{"ev": "EnqueueBatch", "a": map[string]any{"envs": args}, "r": map[string]any{"err": errClass(err), "n": n}}, nil
+	case "RecordAttempt":
+		a := *op.Att
+		err := store.RecordAttempt(queue.DeliveryAttempt{ID: a.ID, EventID: a.Ev, Route: a.Rt, Target: a.Tg, Attempt: a.N, StatusCode: a.Code,
+			Error: a.Err, Outcome: queue.AttemptOutcome(a.Out), DeadReason: a.Dr, CreatedAt: TickTime(a.At)})
+		return Event{"ev": "RecordAttempt", "a": map[string]any{"id": a.ID, "idn": a.IDN, "blank": strings.TrimSpace(a.ID) == "", "ev": a.Ev, "rt": a.Rt, "tg": a.Tg,
+			"n": a.N, "code": a.Code, "err": a.Err, "errn": strings.TrimSpace(a.Err), "out": a.Out, "dr": a.Dr, "drn": strings.TrimSpace(a.Dr), "at": a.At},
+			"r": map[string]any{"err": errClass(err)}}, nil
+	case "ListAttempts":
+		f := *op.AF
+		resp, err := store.ListAttempts(queue.AttemptListRequest{Route: f.Rt, Target: f.Tg, EventID: f.Ev, Outcome: queue.AttemptOutcome(f.Out), Limit: f.Limit, Before: TickTime(f.Before)})
+		items := make([]any, 0, len(resp.Items))
+		for _, it := range resp.Items {
+			items = append(items, map[string]any{"id": it.ID, "gen": isGeneratedAttemptID(it.ID), "ev": it.EventID, "rt": it.Route, "tg": it.Target, "n": it.Attempt,
+				"code": it.StatusCode, "err": it.Error, "out": string(it.Outcome), "dr": it.DeadReason, "at": TimeTick(it.CreatedAt)})
+		}
+		return Event{"ev": "ListAttempts", "a": map[string]any{"rt": f.Rt, "tg": f.Tg, "ev": f.Ev, "out": f.Out, "limit": f.Limit, "before": f.Before},
+			"r": map[string]any{"err": errClass(err), "items": items}}, nil
+	case "CaptureTrend":
+		ts, ok := store.(queue.BacklogTrendStore)
+		if !ok {
+			return nil, errors.New("store is not a BacklogTrendStore")
+		}
+		err := ts.CaptureBacklogTrendSample(TickTime(op.At))
+		return Event{"ev": "CaptureTrend", "a": map[string]any{"at": op.At}, "r": map[string]any{"err": errClass(err)}}, nil
+	case "ListTrend":
+		ts, ok := store.(queue.BacklogTrendStore)
+		if !ok {
+			return nil, errors.New("store is not a BacklogTrendStore")
+		}
+		f := *op.TF
+		resp, err := ts.ListBacklogTrend(queue.BacklogTrendListRequest{Route: f.Rt, Target: f.Tg, Since: TickTime(f.Since), Until: TickTime(f.Until), Limit: f.Limit})
+		items := make([]any, 0, len(resp.Items))
+		for _, it := range resp.Items {
+			items = append(items, map[string]any{"at": TimeTick(it.CapturedAt), "q": it.Queued, "l": it.Leased, "d": it.Dead})
+		}
+		return Event{"ev": "ListTrend", "a": map[string]any{"rt": f.Rt, "tg": f.Tg, "rtn": strings.TrimSpace(f.Rt), "tgn": strings.TrimSpace(f.Tg), "since": f.Since, "until": f.Until, "limit": f.Limit},
+			"r": map[string]any{"err": errClass(err), "items": items, "trunc": resp.Truncated}}, nil
 	case "Dequeue":
 		resp, err := store.Dequeue(queue.DequeueRequest{Route: op.Rt, Target: op.Tg, Batch: op.Batch, LeaseTTL: ms(op.TTL)})
 		for _, it := range resp.Items {
